@@ -150,7 +150,8 @@ fn ascending_edges(rng: &mut Rng, k: usize) -> Vec<f64> {
     let mut cur = rng.range_i64(-8, 0) as f64;
     for _ in 0..k {
         e.push(cur);
-        cur += rng.range_i64(1, 4) as f64 / 2.0;
+        // ascending, not strictly: a repeated edge makes an empty bin, the value equal to it still has one enclosing bin
+        cur += if rng.chance(0.25) { 0.0 } else { rng.range_i64(1, 4) as f64 / 2.0 };
     }
     e
 }
@@ -160,6 +161,9 @@ fn cut_suite(ctx: &mut Ctx, rng: &mut Rng, len: usize) {
         let edges = ascending_edges(rng, k);
         // values: random, equal to an edge, the type's extremes, nulls
         let mut x: Series = (0..len).map(|_| if rng.chance(0.15) { None } else { Some(rng.range_i64(-20, 20) as f64 / 2.0) }).collect();
+        if edges.windows(2).any(|w| w[0] == w[1]) {
+            ctx.count("state.cut_repeated_edge");
+        }
         for e in &edges {
             if !x.is_empty() && rng.chance(0.7) {
                 let i = rng.below(x.len());
